@@ -188,6 +188,10 @@ def geometric_shim(ch, horizon):
     """geometric(p) -> every skip 1..K, K = horizon() + 1 ('past the end')."""
 
     def geometric(p):
+        if p >= 1:
+            return 1  # the real sampler is deterministic here
+        if p <= 0:
+            return float("inf")
         k = max(1, int(horizon() if callable(horizon) else horizon) + 1)
         return 1 + ch.choose(k, "geometric")
 
